@@ -76,6 +76,10 @@ macro_rules! function {
                 args: &[Value],
             ) -> Result<Type, Error>
             {
+                let arity = [$(stringify!($aname)),+].len();
+                if args.len() != arity {
+                    bail!("{} expects {} arguments, {} provided", stringify!($name), arity, args.len())
+                }
                 let mut targs : Vec<Type> = Vec::with_capacity(args.len());
                 for x in args {
                     let t = x.real_type_of($ctx.clone())?;
